@@ -36,9 +36,9 @@ PARTIAL = [
                 "these three numerically for every system it uses)"},
     {"theorem": "clause C04.4 (argument never modified)", "missing": "no theorem with content (mprocess_eq_var_argument_model_trivial is rfl "
      "on identity definitions): established by before/after snapshots of every call site in the correspondence and the oracle only"},
-    {"theorem": "state_var_eq_obj_F, povm_var_eq_obj_F, mprocess_var_eq_obj_F", "missing": "definitional in the model (projEqVarF := projEq); "
-     "agreement of the separate _with_var(False) code sites is established by correspondence and oracle (Gate's flat-index routine is "
-     "modelled separately and gate_var_eq_obj_F has content)"},
+    {"theorem": "state_var_eq_obj_F, povm_var_eq_obj_F, mprocess_var_eq_obj_F", "missing": "definitional in the model (projEqVarF := projEq); for Povm and MProcess both source sites are regenerated (QGen.C04) and proved "
+     "equal to that definition (gen_povm_eq, gen_mprocess_eq); for State the same via gen_state_eq; Gate's flat-index routine is modelled "
+     "separately (gate_var_eq_obj_F has content)"},
 ]
 TYPES = ("State", "Povm", "Gate", "MProcess")
 CLS = {"State": State, "Povm": Povm, "Gate": Gate, "MProcess": MProcess}
